@@ -34,7 +34,7 @@ class CutDomain(Domain):
     def __call__(self, **data):
         domain_a = self.domain_a(**data)
         domain_b = self.domain_b(**data)
-        return CutDomain(domain_a, domain_b)
+        return CutDomain(domain_a, domain_b, contained=self.contained)
 
     def _contains(self, points, params=Points.empty()):
         in_a = self.domain_a._contains(points, params)
